@@ -93,6 +93,9 @@ def info(prop):
             "#include/#define/#ifdef lines, section order incl. atoms after bonds, extra sections angles/dihedrals/exclusions, "
             "empty and repeated sections, header styles, missing final newline; 12 variants in the quick tier, 40 in the thorough tier); "
             "the [ moleculetype ] line with a trailing comment separated by white space or glued to nrexcl (all graphs on <= 3 atoms); "
+            "copy after edit: every graph on <= 4 atoms (3 decoration variants) and 4 shipped topologies, each public edit "
+            "(atom name/resname/resid assignment, connect, bond removal, resnames/resids setters, molecule name) and each pair of "
+            "edits applied to the loaded original, then copy() must equal the edited object and be independent of it; "
             "sampled, not exhaustive: random graphs on 5..12 atoms; chains, stars, "
             "random trees, forests and cyclic graphs of 1000..3000 atoms; the 16 shipped topologies against an independent "
             "minimal parse. Oracles (positions of the listed pairs, union-find connectivity) come from the generated "
@@ -1151,6 +1154,166 @@ def shipped_files():
         return []
 
 
+# ---------------------------------------------------------------------------
+# scope family "copy after edit": the copy of an EDITED topology equals the edited object
+
+
+EDIT_OPS = ["name", "resname", "resid", "connect", "unbond", "resnames", "resids", "molname"]
+
+
+def edits_for(exp):
+    """One concrete public edit per kind, chosen from the expected graph (None when not applicable)."""
+    n = len(exp["atoms"])
+    listed = {tuple(p) for p in exp["pairs"]}
+    non = next(((i, j) for i in range(n) for j in range(i + 1, n) if (i, j) not in listed), None)
+    first = tuple(exp["pairs"][0]) if exp["pairs"] else None
+    return {
+        "name": ["name", n // 2, "ZX9"],
+        "resname": ["resname", 0, "EDT"],
+        "resid": ["resid", n - 1, exp["atoms"][n - 1][2] + 50],
+        "connect": ["connect", non[1], non[0]] if non else None,
+        "unbond": ["unbond", first[0], first[1]] if first else None,
+        "resnames": ["resnames"],
+        "resids": ["resids"],
+        "molname": ["molname", exp["name"] + "_edited"],
+    }
+
+
+def apply_edit(mol, e):
+    """Public edits of a MoleculeTop: attribute assignment, the resnames/resids setters, AtomTop.connect."""
+    op = e[0]
+    if op == "name":
+        mol.atoms[e[1]].name = e[2]
+    elif op == "resname":
+        mol[e[1]].resname = e[2]
+    elif op == "resid":
+        mol[e[1]].resid = e[2]
+    elif op == "connect":
+        mol.atoms[e[1]].connect(mol.atoms[e[2]])
+    elif op == "unbond":
+        mol.atoms[e[1]].bonds.discard(e[2])
+        mol.atoms[e[2]].bonds.discard(e[1])
+    elif op == "resnames":
+        mol.resnames = [f"N{k}" for k in range(len(mol.resnames))]
+    elif op == "resids":
+        mol.resids = [100 + 3 * k for k in range(len(mol.resids))]
+    elif op == "molname":
+        mol.name = e[1]
+    else:
+        raise ValueError(op)
+
+
+def edit_combos(exp):
+    ed = edits_for(exp)
+    ops = [o for o in EDIT_OPS if ed[o] is not None]
+    for o in ops:
+        yield [ed[o]]
+    for a, b in itertools.combinations(ops, 2):
+        yield [ed[a], ed[b]]
+
+
+def eval_copy_after_edit(path, edits, do_copy=None):
+    """Load, edit the original through its public interface, then evaluate the copy clauses on the edited object.
+    Returns (fails, evaluated clauses, note); loading or editing problems are not this family's business (note set)."""
+    from gaddlemaps.components import MoleculeTop
+    try:
+        with _quiet():
+            mol = MoleculeTop(path)
+            loaded = _snap(mol)
+            for e in edits:
+                apply_edit(mol, e)
+            edited = _snap(mol)
+    except Exception as e:
+        return {}, set(), f"load/edit {_exc(e)}"
+    if edited == loaded:
+        return {}, set(), "edit had no effect"
+    fails, _ = check_copy(mol, do_copy or (lambda m: m.copy()))
+    if CLAUSE_KEYS[7] in fails:
+        fails[CLAUSE_KEYS[7]] = (f"after the edits {edits} the copy is not equal to the edited original: " + fails[CLAUSE_KEYS[7]])
+    return fails, set(CLAUSE_KEYS[7:9]), ""
+
+
+def _cae_cex(clause, edits, case, text=None, exp=None, shipped=None):
+    c = {"kind": "copy-after-edit", "edits": edits, "clause": clause, "case": case, "signature": f"{clause}:copy-after-edit"}
+    if shipped:
+        c["shipped"] = shipped
+    else:
+        c.update(itp=text, expected=exp, file="mol.itp")
+    return c
+
+
+def run_copy_after_edit(family, cases):
+    """cases: iterable of (description, text, expected, file name, shipped name or None)."""
+    tally = Tally(family)
+    wd = tempfile.mkdtemp(prefix="c15e_")
+    skipped, guard = [], None
+    try:
+        for case, text, exp, fname, shipped in cases:
+            path = os.path.join(wd, fname)
+            with open(path, "w", encoding="utf-8", newline="") as f:
+                f.write(text)
+            for edits in edit_combos(exp):
+                fails, evald, note = eval_copy_after_edit(path, edits)
+                if not evald:
+                    if not note.startswith("edit had no effect"):
+                        skipped.append(f"{case} {edits}: {note}")
+                    continue
+                desc = f"{case}; edits={edits}"
+                tally.add(desc, text + f"\n; edits {edits}", exp, fails, evald, {},
+                          cex_builder=lambda k, e=edits, d=desc, t=text, x=exp, s=shipped: _cae_cex(k, e, d, t, x, s))
+                if guard is None and not fails:
+                    # must-fail: a "copy" rebuilt from the file (forgets the edits) has to be refuted by the equal clause
+                    from gaddlemaps.components import MoleculeTop
+                    gf, _, _ = eval_copy_after_edit(path, edits, do_copy=lambda m, p=path: MoleculeTop(p))
+                    guard = CLAUSE_KEYS[7] in gf
+    finally:
+        shutil.rmtree(wd, ignore_errors=True)
+    out = tally.obligations()
+    if guard is not None:
+        out.append(ob(f"{PROP}/MoleculeTop.copy/guard.must-fail.copy-rebuilt-from-file-equals-edited/{family}",
+                      "refuted" if guard else "discharged", kind="guard", engine="smallscope", backend="runtime-contract",
+                      expect="refuted"))
+    if skipped and not any(tally.n.values()):
+        out.append(ob(f"{PROP}/MoleculeTop.copy/copy-after-edit-evaluable/{family}", "undecided", kind="bounded",
+                      engine="smallscope", backend="runtime-contract", reason=f"no case could be loaded and edited: {skipped[0]}"))
+    return out
+
+
+def task_copy_after_edit_graphs(shard, nshards, tier, seed):
+    def cases():
+        decos = (0, 1, 6) if tier == "quick" else range(len(DECOS))
+        idx = 0
+        for n in (1, 2, 3, 4):
+            for edges in all_graphs(n):
+                idx += 1
+                if idx % nshards != shard:
+                    continue
+                split = tuple("bcp"[(idx + k) % 3] for k in range(len(edges)))
+                for di in decos:
+                    d = DECOS[di]
+                    spec = small_spec(n, edges, split, d)
+                    yield (f"n={n} edges={list(edges)} sections={''.join(split)} deco={di}", fmt_itp(spec, d), expected_of(spec),
+                           "mol.itp", None)
+    name = f"copy-after-edit.graphs<=4atoms.part{shard + 1}of{nshards}"
+    return run_copy_after_edit(name, cases())
+
+
+COPY_EDIT_SHIPPED = ["BF4_AA.itp", "BMIM_CG.itp", "SDS_AA.itp", "vitamin_E_CG.itp"]
+
+
+def task_copy_after_edit_shipped(tier, seed):
+    def cases():
+        names = COPY_EDIT_SHIPPED if tier == "quick" else shipped_files()
+        for fn in names:
+            p = os.path.join(DATA_DIR, fn)
+            if not os.path.exists(p):
+                continue
+            with open(p, encoding="utf-8") as f:
+                text = f.read()
+            yield (f"shipped {fn}", text, mini_parse(text), fn, fn)
+    return run_copy_after_edit("copy-after-edit.shipped", cases())
+
+
 def task_shipped(group, tier, seed):
     files = [f for f in shipped_files() if ("AA" in f) == (group == "AA")]
     family = f"shipped.{group}"
@@ -1203,10 +1366,41 @@ def tasks(prop, tier, seed):
         t.append((f"large/{group}", task_large, (group, tier, seed), lim))
     for group in ("AA", "CG"):
         t.append((f"shipped/{group}", task_shipped, (group, tier, seed), lim))
+    for sh in range(2):
+        t.append((f"copy-after-edit/graphs.part{sh + 1}of2", task_copy_after_edit_graphs, (sh, 2, tier, seed), lim))
+    t.append(("copy-after-edit/shipped", task_copy_after_edit_shipped, (tier, seed), lim))
     return t
 
 
+def _replay_copy_after_edit(cex):
+    if cex.get("shipped"):
+        fname = cex["shipped"]
+        with open(os.path.join(DATA_DIR, fname), encoding="utf-8") as f:
+            text = f.read()
+    else:
+        fname, text = cex.get("file", "mol.itp"), cex["itp"]
+    wd = tempfile.mkdtemp(prefix="c15r_")
+    try:
+        path = os.path.join(wd, fname)
+        with open(path, "w", encoding="utf-8", newline="") as f:
+            f.write(text)
+        fails, evald, note = eval_copy_after_edit(path, cex["edits"])
+    finally:
+        shutil.rmtree(wd, ignore_errors=True)
+    clause = cex.get("clause")
+    shown = {k: v for k, v in cex.items() if k != "expected"}
+    if len(shown.get("itp", "")) > 4000:
+        shown["itp"] = shown["itp"][:2000] + "\n...[elided]"
+    return {"reproduced": bool(fails), "same_clause": clause in fails if clause else None,
+            "observed": fails.get(clause) or "; ".join(f"{k}: {v}" for k, v in fails.items()) or (note or "both copy clauses hold"),
+            "violated": sorted(fails),
+            "expected": "copy() of the edited topology is == to it, field-wise equal (names, resnames, resids, bonds) and independent",
+            "inputs": shown}
+
+
 def replay(prop, cex):
+    if cex.get("kind") == "copy-after-edit":
+        return _replay_copy_after_edit(cex)
     if cex.get("kind") == "shipped":
         with open(os.path.join(DATA_DIR, cex["file"]), encoding="utf-8") as f:
             text = f.read()
